@@ -154,6 +154,27 @@ def full_config(spec, peer_md):
     return cnf
 
 
+def md_path(world, node_name, peer_name):
+    import os
+    d = os.path.join(world.tmpdir(), node_name)
+    os.makedirs(d, exist_ok=True)
+    return os.path.join(d, "%s.xml" % peer_name)
+
+
+def file_config(world, spec, peer_specs):
+    """Peers' metadata as local files (one per peer) - what lets a long-lived node refresh a
+    peer's metadata in place with MetadataStore.load('local', same_path)."""
+    cnf = base_config(spec)
+    paths = []
+    for p in peer_specs:
+        path = md_path(world, spec["name"], p["name"])
+        with open(path, "w") as f:
+            f.write(metadata_xml(p))
+        paths.append(path)
+    cnf["metadata"] = {"local": paths}
+    return cnf
+
+
 class Node(object):
     def __init__(self, world, spec, peer_specs):
         """peer_specs: the specs *as this node knows them* (its metadata view of the peers)."""
@@ -181,19 +202,36 @@ class Node(object):
                 res.append("k%d" % p["key"])
                 res.extend("k%d" % k for k in p.get("extra_certs", []))
         else:
+            # entity_descriptor() publishes encryption KeyDescriptors for encryption_keypairs only
             if usage in ("both", "encryption"):
-                if p.get("enc_keys"):
-                    res.extend("k%d" % k for k in p["enc_keys"])
-                else:
-                    res.append("k%d" % p["key"])
-                    res.extend("k%d" % k for k in p.get("extra_certs", []))
+                res.extend("k%d" % k for k in (p.get("enc_keys") or []))
         return res
+
+
+def _refresh_in_place(node, obj, peer_specs):
+    """The running process re-reads its peers' metadata (no restart): every peer file is rewritten
+    and loaded again under the same key, a peer that disappeared gets an empty aggregate."""
+    import os
+    new_view = {entity_of(p): copy.deepcopy(p) for p in peer_specs}
+    with node.world.on(node.name):
+        names = set(p["name"] for p in node.peer_view.values()) | set(p["name"] for p in peer_specs)
+        by_name = {p["name"]: p for p in peer_specs}
+        for name in sorted(names):
+            path = md_path(node.world, node.name, name)
+            if name in by_name:
+                with open(path, "w") as f:
+                    f.write(metadata_xml(by_name[name]))
+            else:
+                with open(path, "w") as f:
+                    f.write('<?xml version="1.0"?><ns0:EntitiesDescriptor xmlns:ns0="urn:oasis:names:tc:SAML:2.0:metadata" Name="empty"/>')
+            obj.metadata.load("local", path)
+    node.peer_view = new_view
 
 
 class IdPNode(Node):
     def build(self):
         with self.world.on(self.name):
-            cnf = full_config(self.spec, [metadata_xml(p) for p in self.peer_view.values()])
+            cnf = file_config(self.world, self.spec, list(self.peer_view.values()))
             self.server = Server(config=IdPConfig().load(copy.deepcopy(cnf)))
             self.server.config.context = "idp"
         self.endpoints = idp_endpoints(self.name)
@@ -204,17 +242,23 @@ class IdPNode(Node):
         except Exception:
             pass
 
+    def refresh_in_place(self, peer_specs):
+        _refresh_in_place(self, self.server, peer_specs)
+
 
 class SPNode(Node):
     def build(self):
         with self.world.on(self.name):
-            cnf = full_config(self.spec, [metadata_xml(p) for p in self.peer_view.values()])
+            cnf = file_config(self.world, self.spec, list(self.peer_view.values()))
             conf = SPConfig().load(copy.deepcopy(cnf))
             conf.context = "sp"
             self.client = Saml2Client(config=conf)
         self.endpoints = sp_endpoints(self.spec)
         if not hasattr(self, "outstanding"):
             self.outstanding = {}
+
+    def refresh_in_place(self, peer_specs):
+        _refresh_in_place(self, self.client, peer_specs)
 
     def restart(self):
         """Process restart: objects rebuilt from config, volatile application state lost."""
